@@ -1,4 +1,5 @@
 """C08 — compiled programs do what the source says."""
+import json
 from checks.numlib import *
 from checks.syntaxlib import run_syntax
 
@@ -12,7 +13,10 @@ META = {
             "statement semantics evalStmts + metadata merge, by frame lemmas per construct), opcode_table_matches / type_table_matches (decide, against tables "
             "regenerated from the Go sources on every run), rejected_not_run, cache_transparent(_seq) for every cache size and eviction policy. Ties: bytecode "
             "equality (instruction bytes, typed resources, needed balances, sources identical to the real compiler's on every generated program, same "
-            "compile_error verdict), VM model vs real VM, end-to-end Spec vs compiler+VM.",
+            "compile_error verdict), VM model vs real VM, end-to-end Spec vs compiler+VM (each compiled program executed twice to detect state left in it); the "
+            "engine's real compilation cache (command.NewCompiler, sizes 1 / 2 / 1024) is fed sequences of near-identical texts (blanks in strings and in the "
+            "multi-word overdraft tokens, comments, CRLF, trailing newline, letter case, one digit) and must hand out, at every position, exactly what a fresh "
+            "compiler.Compile of that text gives (cache-not-transparent).",
     "note": "PARTIAL: compile_correct is proved for the fragment above and from the resolved state on; source/destination allotments, ordered destinations "
             "(max/remaining/kept) and the equivalence of the two resolution stages (Spec.prepare/initBal vs SetVarsFromJSON/ResolveResources/ResolveBalances) rest "
             "on the differentials; so does the concurrency clause (shared *Program under concurrent use); the digest injectivity is a hypothesis of "
@@ -23,6 +27,58 @@ META = {
 }
 
 
+def _replay_area(ctx):
+    if not ctx.replay_file:
+        return None
+    try:
+        return json.load(open(ctx.replay_file)).get("replay", {}).get("area")
+    except Exception:
+        return None
+
+
+def run_cache(ctx, build=True):
+    """the real command.NewCompiler(size) (sha256 key over a gcache LFU) on sequences of near-identical texts: at every position the
+    program (or refusal) it hands out must be the one a fresh compiler.Compile of that very text gives"""
+    if build and not ctx.ensure_harness():
+        return
+    r = pipeline(ctx, "nscache", 1500 if ctx.quick else 60000, model=False)
+    if r is None:
+        return
+    inputs, impl, _ = r
+    st = collections.Counter()
+    for inp in inputs:
+        out = impl.get(inp["id"], {})
+        st["sequences"] += 1
+        st["cache_size_%s" % inp.get("size")] += 1
+        if "steps" not in out:
+            ctx.violation({"property": "C08", "class": "cache-not-transparent", "effect": "panic" if "panic" in out else "no-result"},
+                          "the compilation cache did not answer: %s" % canon(out)[:200], {"area": "nscache", "input": inp, "observed": out})
+            continue
+        texts = inp["texts"]
+        for k, step in enumerate(out["steps"]):
+            st["compilations"] += 1
+            st["repeats_of_an_earlier_text"] += 1 if texts[k] in texts[:k] else 0
+            st["near_identical_to_an_earlier_text"] += 1 if k and texts[k] not in texts[:k] else 0
+            st["texts_the_language_rejects"] += 1 if step["fresh"].get("err") else 0
+            for m in (inp.get("muts") or [[]] * len(texts))[k]:
+                st["variation:" + m] += 1
+            if canon(step["cached"]) == canon(step["fresh"]):
+                continue
+            ce, fe = bool(step["cached"].get("err")), bool(step["fresh"].get("err"))
+            effect = ("hands-out-a-program-for-a-text-the-language-rejects" if fe and not ce else
+                      "refuses-a-text-the-language-accepts" if ce and not fe else "hands-out-the-program-of-another-text")
+            try:
+                shown = bytes.fromhex(texts[k]).decode("utf-8", "replace")
+            except Exception:
+                shown = "?"
+            ctx.violation({"property": "C08", "class": "cache-not-transparent", "effect": effect},
+                          "cache of size %s, text no. %d of the sequence (%r): %s" % (inp.get("size"), k + 1, shown[:120], effect.replace("-", " ")),
+                          {"area": "nscache", "input": inp, "observed": out, "position": k})
+            break
+    ctx.cov["compilation_cache"] = dict(st)
+    return len(inputs)
+
+
 def run(ctx):
     ctx.cov["trusted_base"] = TRUSTED + TRUSTED_A2 + ["digest injectivity on the scripts in use is a hypothesis of cache_transparent, not an axiom"]
     ctx.cov["partial"] = ("compile_correct proved for the fragment {send from account|overdraft|max|in-order sources to an account, save, set_tx_meta, "
@@ -30,8 +86,14 @@ def run(ctx):
                            "equivalence and the concurrency of a shared cached program are covered by the differentials only")
     regen_opcodes(ctx)
     ctx.l1()
+    if _replay_area(ctx) == "nscache":
+        run_cache(ctx)
+        return
     if run_syntax(ctx):  # front end (lexer+parser) on script texts; True = it served a --replay of one of its own cases
         return
+    ncache = 0
+    if not ctx.replay_file:
+        ncache = run_cache(ctx, build=False) or 0   # run_syntax has just built the harness
     r = run_numscript(ctx, 2500 if ctx.quick else 100000)
     if r is None:
         return
@@ -41,13 +103,16 @@ def run(ctx):
     if bc is not None:
         compare_bytecode(ctx, inputs, bc[0], bc[1])
     seen, nontrivial = set(), 0
+    rp = Replays(ctx, inputs)
+
+    def proj(o):
+        return {k: v for k, v in strip(o).items() if k not in ("lockR", "lockW")}
     for inp in inputs:
         a, b = impl.get(inp["id"], {}), model.get(inp["id"], {})
-        pa = {k: v for k, v in strip(a).items() if k not in ("lockR", "lockW")}
-        pb = {k: v for k, v in b.items() if k not in ("lockR", "lockW")}
+        pa, pb = proj(a), proj(b)
         if "unstable" in a:
-            ctx.violation({"property": "C08", "class": "second-run-differs"}, "running the same compiled program twice gave different outcomes",
-                          {"area": "numscript", "input": inp, "observed": a})
+            rp.violation({"property": "C08", "class": "second-run-differs"}, "running the same compiled program twice gave different outcomes",
+                         inp, a, lambda o: "unstable" in o)
         if "panic" in a:
             continue  # a crash is C12's business
         if canon(pa) != canon(pb):
@@ -56,14 +121,18 @@ def run(ctx):
             sig = {"property": "C08", "class": "differs-from-source", "spec": kb, "impl": ka}
             if ka == kb == "ok":
                 sig["fields"] = ",".join(sorted(k for k in pa if canon(pa.get(k)) != canon(pb.get(k))))
-            ctx.violation(sig, what, {"area": "numscript", "input": inp, "observed": a, "source_says": b})
+            rp.violation(sig, what, inp, a, lambda o, pb=pb: "panic" not in o and canon(proj(o)) != canon(pb), extra={"source_says": b})
+    ctx.cov["replay_isolation"] = dict(rp.stats)
+    for inp in inputs:
+        a = impl.get(inp["id"], {})
         f = features(inp)
         h = shash(inp["text"] + canon(inp["bal"]))
         if h not in seen and len(f) >= 6 and a.get("err") != "compile_error":
             nontrivial += 1
         seen.add(h)
-    ctx.cov["evaluations"] = len(inputs)
+    ctx.cov["evaluations"] = len(inputs) + ncache
     ctx.cov["distinct_nontrivial"] = nontrivial
-    ctx.cov["rule"] = "same generator as C01 plus the ill-typed mutation stream; non-trivial = distinct compiled case using at least six distinct constructs"
+    ctx.cov["rule"] = ("same generator as C01 plus the ill-typed mutation stream; non-trivial = distinct compiled case using at least six distinct constructs; "
+                       "plus sequences of near-identical texts through the real compilation cache (compilation_cache)")
     ctx.cov["samples"] = [{"text": i["text"], "impl": impl.get(i["id"])} for i in inputs[:2]]
     ctx.cov["input_distribution"] = distribution(inputs, impl)
